@@ -30,6 +30,7 @@ CONFIGS = {
     'heap': ['-DUSE_MEMORY_ALLOCATION_FREE=0'],
     'noinfo': ['-DUSE_DEVICE_DEPENDENT_ERROR_INFORMATION=0'],
     'dtostre': ['-DUSE_CUSTOM_DTOSTRE=1'],
+    'regtree': ['-DSCPI_USER_CONFIG', '-I' + os.path.join(HARNESS, 'regtree')],      # USE_CUSTOM_REGISTERS with the generated user tree
 }
 LIBSRC = ['error.c', 'fifo.c', 'ieee488.c', 'minimal.c', 'parser.c', 'units.c', 'utils.c', 'lexer.c', 'expression.c']
 
@@ -53,7 +54,7 @@ def build(name, drivers, config='default', san=True, extra=(), link=()):
     working tree of the repository (hooks on). Returns the executable path."""
     r = os.path.join(repo(), 'libscpi')
     srcs = [os.path.join(HARNESS, d) for d in drivers]
-    hdrs = glob.glob(os.path.join(HARNESS, '*.h'))
+    hdrs = glob.glob(os.path.join(HARNESS, '*.h')) + glob.glob(os.path.join(HARNESS, '*', '*.h'))
     flags = ['-g', '-O1', '-DSCPI_PARSER_VERIF', '-I' + os.path.join(r, 'inc'), '-I' + os.path.join(r, 'src'), '-I' + HARNESS]
     flags += CONFIGS[config] + list(extra)
     if san:
